@@ -39,6 +39,22 @@ func splitOwner(key string) (owner, name string) {
 
 // renameBack renames identifiers back to their reference names. Returns the packages whose syntax changed.
 func renameBack(c *Ctx) (map[string]bool, []string) {
+	// phase 1: named types (their names occur in every signature, so they go first and everything is re-checked)
+	changed, notes := renamePhase(c, true)
+	if len(changed) > 0 {
+		if err := rebuildAll(c, false); err != nil {
+			return changed, append(notes, "re-typecheck after type rename failed: "+err.Error())
+		}
+	}
+	// phase 2: functions, methods, fields, package variables
+	ch2, n2 := renamePhase(c, false)
+	for k := range ch2 {
+		changed[k] = true
+	}
+	return changed, append(notes, n2...)
+}
+
+func renamePhase(c *Ctx, typesOnly bool) (map[string]bool, []string) {
 	changed := map[string]bool{}
 	var notes []string
 	var keys []string
@@ -56,6 +72,8 @@ func renameBack(c *Ctx) (map[string]bool, []string) {
 			rest := strings.TrimPrefix(key, pk+":")
 			sc := p.Types.Scope()
 			switch {
+			case strings.HasPrefix(rest, "type:"):
+				return sc.Lookup(strings.TrimPrefix(rest, "type:"))
 			case strings.HasPrefix(rest, "var:"):
 				return sc.Lookup(strings.TrimPrefix(rest, "var:"))
 			case strings.HasPrefix(rest, "field:"):
@@ -168,8 +186,12 @@ func renameBack(c *Ctx) (map[string]bool, []string) {
 				changed[pk] = true
 			}
 		}
-		pairUp(funcs, knownSigs)
-		pairUp(members, knownMembers)
+		if typesOnly {
+			pairUp(declaredTypes(pk, p.Types), knownTypes)
+		} else {
+			pairUp(funcs, knownSigs)
+			pairUp(members, knownMembers)
+		}
 	}
 	return changed, notes
 }
